@@ -12,7 +12,7 @@
     later-version elements, unknown trailing elements disappear at the first re-encoding) -
     that part is covered by the correspondence/oracle run on mutated and foreign inputs. *)
 From Coq Require Import ZArith List Bool String.
-From KV Require Import Base Wire Cursor BinCursorProofs Schema SchemaSem FaithfulProofs Roundtrip RoundtripProofs FixpointProofs
+From KV Require Import Base Wire Cursor BinCursorProofs Schema SchemaSem FaithfulProofs Roundtrip RoundtripProofs RoundtripCustoms FixpointProofs
   TextLex TextFmt TextFmtProofs.
 Import ListNotations.
 Open Scope Z_scope.
@@ -36,16 +36,16 @@ Print Assumptions C18_decoded_tree_encodable.
 (** Typed values, ANY reader format: a conforming value is the fixed point - decoding its
     encoding returns it (hence every further re-encoding is byte-identical). *)
 Theorem C18_typed_fixed_point :
-  forall (S : schema) OPS ATTRS OBJS (R : Type) (F : rawfmt R) fe st t tag v items st' sc,
-  enc_ty S fe st t tag v = Ok (items, st') -> conf_ty S fe st t tag v = Some sc ->
+  forall (S : schema) OPS ATTRS OBJS (R : Type) (F : rawfmt R) fe fc st t tag v items st' sc,
+  enc_ty S fe st t tag v = Ok (items, st') -> conf_ty S OPS ATTRS OBJS fc st t tag v = Some sc ->
   forall (es : list (relem R)) fd, faithful F items es -> lookahead t = false ->
     (fe + 2 * items_size items + 2 <= fd)%nat ->
     exists v2, dec_ty S OPS ATTRS OBJS F fd st t tag (es, false) = Ok (v2, ([], false), st') /\
                enc_ty S fe st t tag v2 = Ok (items, st').
 Proof.
-  intros S OPS ATTRS OBJS R F fe st t tag v items st' sc He Hc es fd Hf Hla Hfd.
+  intros S OPS ATTRS OBJS R F fe fc st t tag v items st' sc He Hc es fd Hf Hla Hfd.
   destruct (rt_all S OPS ATTRS OBJS F fe) as (Pt & _ & _).
-  destruct (Pt _ _ _ _ _ _ _ He Hc) as (_ & _ & _ & _ & Hdec).
+  destruct (Pt _ _ _ _ _ _ _ _ He Hc) as (_ & _ & _ & _ & Hdec).
   exists v. split; [|exact He]. specialize (Hdec es [] fd Hf). rewrite app_nil_r in Hdec.
   apply Hdec; [rewrite Hla; discriminate | exact Hfd].
 Qed.
